@@ -41,7 +41,7 @@ func VerifH_C18_CreateThenExtract() {
 	}
 	f1 := vBytes("f1", n1)
 	vFSWriteFile(src+"/a", f1)
-	shape := vChoose("shape", 4)
+	shape := vChoose("shape", 6)
 	var f2 []byte
 	switch shape {
 	case 1:
@@ -49,6 +49,15 @@ func VerifH_C18_CreateThenExtract() {
 		vFSWriteFile(src+"/b", f2)
 	case 2:
 		vFSSymlink("a", src+"/l")
+	case 4:
+		// an empty directory and a directory that holds only an empty directory
+		vFSMkdir(src + "/e")
+		vFSMkdir(src + "/p")
+		vFSMkdir(src + "/p/q")
+	case 5:
+		// two files given as two source arguments (wrapped mode only); their contents may be equal
+		f2 = vBytes("f2", 2)
+		vFSWriteFile(src+"/b", f2)
 	case 3:
 		vFSMkdir(src + "/d")
 		f2 = vBytes("f2", vChoose("nestedLen", 2)) // an empty or a one-byte file
@@ -60,12 +69,19 @@ func VerifH_C18_CreateThenExtract() {
 		version = "1"
 	}
 	noWrap := vChoose("noWrap", 2) == 1
+	if shape == 5 {
+		noWrap = false
+	}
 	var sink bytes.Buffer
 	args := []string{"--file", carPath, "--version", version}
 	if noWrap {
 		args = append(args, "--no-wrap")
 	}
-	args = append(args, src)
+	if shape == 5 {
+		args = append(args, src+"/a", src+"/b")
+	} else {
+		args = append(args, src)
+	}
 	err := CreateCar(vCtxArgs(&sink, []string{"file", "version"}, []string{"no-wrap"}, args...))
 	vAssert("create-ok", err == nil)
 	file, ok := vFSReadFile(carPath)
@@ -96,8 +112,8 @@ func VerifH_C18_CreateThenExtract() {
 	}
 	vAssert("extract-ok", err == nil)
 	base := dst + "/tree"
-	if noWrap {
-		base = dst
+	if noWrap || shape == 5 {
+		base = dst // the sources sit directly under the wrapping directory
 	}
 	got, ok := vFSReadFile(base + "/a")
 	vAssert("file-a-content", ok && vBytesEq(got, f1))
@@ -106,6 +122,13 @@ func VerifH_C18_CreateThenExtract() {
 		got2, ok := vFSReadFile(base + "/b")
 		vAssert("file-b-content", ok && vBytesEq(got2, f2))
 		vCover("identical-files", vBytesEq(f1, f2))
+	case 4:
+		vAssert("empty-directory-kept", vFSExists(base+"/e") && vFSExists(base+"/p/q"))
+		vCover("empty-directories-roundtrip", true)
+	case 5:
+		got2, ok := vFSReadFile(base + "/b")
+		vAssert("second-source-content", ok && vBytesEq(got2, f2))
+		vCover("two-sources-identical", vBytesEq(f1, f2))
 	case 2:
 		t, lerr := os.Readlink(base + "/l")
 		vAssert("symlink-target", lerr == nil && t == "a")
